@@ -57,6 +57,25 @@ class Exploration:
         self.ctx, self.paths, self.complete, self.unsupported = ctx, paths, complete, unsupported
 
 
+PROXY_NAMES = ("LArr", "YVec", "Packed", "Flat", "RepeatN", "SymArray", "SymBool", "SymInt", "'Sym'", "Masked", "MonList", "_LV", "_MA", "_Stack", "_OutBuf", "LiftedBase", "z3.", "ArithRef", "BoolRef")
+
+
+def harness_artifact(e):
+    """True when an exception raised while the real code ran on proxy values is a limitation of the proxies, not behaviour of
+    the code: a TypeError / AttributeError / NotImplementedError (or IndexError / ValueError) whose message names a proxy class
+    or whose innermost frame lies inside pv/ (the engine) rather than in the code under verification."""
+    import traceback
+
+    if isinstance(e, (TypeError, AttributeError, NotImplementedError)) and any(nm in str(e) for nm in PROXY_NAMES):
+        return True
+    tb = traceback.extract_tb(e.__traceback__)
+    if tb and isinstance(e, (TypeError, AttributeError, NotImplementedError, IndexError, ValueError, KeyError)):
+        inner = tb[-1].filename.replace("\\", "/")
+        if "/pv/" in inner and "/pydrex/" not in inner:
+            return True
+    return False
+
+
 def explore(run, hyps=(), max_paths=3000, feas_timeout_ms=1500, time_budget_s=None):
     """Execute `run()` on every feasible path.  `run` must build its own symbolic inputs
     (deterministically named) and return the value to be judged; it may return a tuple
@@ -93,6 +112,10 @@ def explore(run, hyps=(), max_paths=3000, feas_timeout_ms=1500, time_budget_s=No
             except Exception as e:  # path result: judged by the contract
                 import traceback
 
+                if harness_artifact(e):
+                    unsupported.append(f"proxy limitation: {type(e).__name__}: {str(e)[:160]}")
+                    complete = False
+                    continue
                 e._pv_tb = traceback.format_exc()
                 paths.append(PathResult(list(c.pc), list(c.lazy), None, e, list(c.oblig)))
     finally:
